@@ -567,7 +567,13 @@ where
         total_sim_ms = world.sim_ms();
         crate::session::after_session(&ctx, si, outcome);
         if plan.profile.starts_with("tools") && si == 0 && !ctx.aborted.get() {
-            crate::tools_phase::run::<K>(&ctx);
+            // the offline tools run on this thread, outside the simulated runtime: a panic inside a
+            // tool is a verdict about the tool, not a reason to lose the batch worker
+            if std::panic::catch_unwind(std::panic::AssertUnwindSafe(|| crate::tools_phase::run::<K>(&ctx))).is_err() {
+                let msg = PANICS.with(|p| p.borrow().last().cloned()).unwrap_or_default();
+                let canonical: String = msg.split(" @ ").next().unwrap_or("").chars().take(100).collect();
+                ctx.violate_post_mortem(&["C16"], "tool-panic", format!("an offline tool panicked: {}", canonical), format!("{}; {}", msg, ctx.last_step_note.borrow()));
+            }
         }
         if ctx.violations.borrow().len() > 20 || ctx.aborted.get() {
             break;
